@@ -287,7 +287,7 @@ def validate(ctx, fits, pairs, label, batch=1500):
         path.unlink()
         if res.violated or res.error:
             raise MachineryError("FitPassesTrace failed:\n"
-                                 + res.stdout[-4000:])
+                                 + vcommon.err_excerpt(res.stdout))
         states += res.distinct
         for obj in res.printed():
             if "fit" in obj:
